@@ -1,7 +1,695 @@
-//! C12 — node-level correspondence harness (stub; see /verif/AGENT_GUIDE.md).
+//! C12 — after any reorg the pool agrees with the new chain: no stale, dead or lost txs.
+//!
+//! A real node with tx-pool service and block assembler (mine mode) is driven through random
+//! histories: submissions (chains, joins, conflicts, header-dep txs), blocks mined from the node's
+//! own templates, competing ChainBuilder branches (proposing / committing pool txs and conflicting
+//! txs, reorgs of depth 1..w_far+2) and clock jumps (expiry). After every chain change the harness
+//! waits until the pool has processed the notification (`get_tx_pool_info().tip_hash == tip`; the
+//! pool's snapshot is swapped under the same write lock that does the whole update and the re-adds)
+//! and evaluates the property on the implementation alone; the part of the update that is a pure
+//! function of (pool before, attached txs, detached headers, detached proposals, new window) is
+//! also sent to the model (`_update_tx_pool_for_reorg` on the pre-existing entries).
+//!
+//! Op lines:
+//!   cfg <epoch_len> <w_close> <w_far> <ba_interval_ms> <expiry_hours> <max_ancestors>      -> ok
+//!   submit <tid> <t.i,..> <n_out> <fee> <hdep depth|->                                     -> ok
+//!   time <ms>               advance the (fake) clock                                        -> ok
+//!   mine                    template -> block -> process; emits the reorg lines             -> ok
+//!   fork <back> <extra> <nprop> <ncommit>   ChainBuilder branch, processed block by block;
+//!                           the reorg lines are emitted for the block that switches the chain -> ok
+//!   derived (ignored on replay, regenerated):
+//!     rpool                                                  -> ok
+//!     rent <id> <status 0 pending|1 gap|2 proposed> <spent outpoints> <dep outpoints> <header ids> <descendants>  -> ok
+//!     ratt <id> <spent outpoints>                            -> ok   (attached txs, block order)
+//!     rargs <detached header ids> <detached proposal ids> <gap ids> <proposed ids>   -> ok
+//!     rafter                -> <id>:<status>,... of the PRE-EXISTING entries still pooled, sorted
+//!   (outpoint code = tid*16+idx, genesis cell k = k; header id = index in the harness's block table)
+//!
+//! Oracle classes: `committed-in-pool`, `dead-or-unknown-input`, `double-spend-in-pool`,
+//! `detached-header-dep`, `lost-tx` (committed only on the abandoned branch, admissible, not back),
+//! `stage-mismatch` (status vs proposal window). Sub-classes that name the cause found on the
+//! unchanged tree: `input-of-expired-parent` (F5: remove_expired dropped the parent only),
+//! `input-of-detached-parent-not-readmitted` (the parent was committed on the abandoned branch and
+//! could not be re-admitted; nothing evicts its pooled descendants), `stage-gap-outside-window`
+//! (a gap entry whose proposal was in the gap part of the abandoned branch stays gap).
 use crate::common::*;
+use crate::node::*;
+use ckb_app_config::{BlockAssemblerConfig, NetworkConfig, TxPoolConfig};
+use ckb_chain::ChainServiceScope;
+use ckb_chain_spec::consensus::Consensus;
+use ckb_jsonrpc_types::ScriptHashType;
+use ckb_network::{Flags, NetworkController, NetworkService, NetworkState, network::TransportType};
+use ckb_shared::{Shared, SharedBuilder};
+use ckb_store::ChainStore;
+use ckb_tx_pool::verif::Status;
+use ckb_types::core::{BlockView, Capacity, TransactionView};
+use ckb_types::h256;
+use ckb_types::packed::{self, Byte32, OutPoint, ProposalShortId};
+use ckb_types::prelude::*;
+use std::collections::{BTreeMap, HashMap, HashSet};
+use std::path::{Path, PathBuf};
+use std::sync::Arc;
+use std::time::{Duration, Instant};
 
-pub fn run(_opts: &Opts) {
-    eprintln!("C12: harness not implemented");
-    std::process::exit(2);
+pub struct PNode {
+    pub shared: Shared,
+    chain: Option<ChainServiceScope>,
+    _network: NetworkController,
+}
+
+fn dummy_network(shared: &Shared, dir: &Path) -> NetworkController {
+    let config = NetworkConfig {
+        max_peers: 19,
+        max_outbound_peers: 5,
+        path: dir.join("network"),
+        ping_interval_secs: 15,
+        ping_timeout_secs: 20,
+        connect_outbound_interval_secs: 1,
+        discovery_local_address: true,
+        bootnode_mode: true,
+        reuse_port_on_linux: true,
+        ..Default::default()
+    };
+    let network_state = Arc::new(NetworkState::from_config(config).expect("Init network state failed"));
+    NetworkService::new(network_state, vec![], vec![], (shared.consensus().identify_name(), "test".to_string(), Flags::COMPATIBILITY), TransportType::Tcp)
+        .start(shared.async_handle())
+        .expect("Start network service failed")
+}
+
+impl PNode {
+    pub fn start(dir: &Path, consensus: Consensus, tx_pool: TxPoolConfig, interval_ms: u64) -> PNode {
+        std::fs::create_dir_all(dir.join("header_map")).unwrap();
+        let db_config = ckb_app_config::DBConfig { path: dir.join("db"), ..Default::default() };
+        let builder = SharedBuilder::new("verif", dir, &db_config, None, runtime_handle(), consensus)
+            .unwrap_or_else(|e| panic!("SharedBuilder::new failed: {e:?}"))
+            .header_map_tmp_dir(Some(dir.join("header_map")))
+            .tx_pool_config(tx_pool);
+        let ba = BlockAssemblerConfig {
+            code_hash: h256!("0x0"),
+            args: Default::default(),
+            hash_type: ScriptHashType::Data,
+            message: Default::default(),
+            use_binary_version_as_message_prefix: false,
+            binary_version: "TEST".to_string(),
+            update_interval_millis: interval_ms,
+            notify: vec![],
+            notify_scripts: vec![],
+            notify_timeout_millis: 800,
+        };
+        let (shared, mut pack) = builder.block_assembler_config(Some(ba)).build().unwrap_or_else(|e| panic!("SharedBuilder::build failed: {e:?}"));
+        let n = dummy_network(&shared, dir);
+        pack.take_tx_pool_builder().start(n.clone());
+        let chain = ChainServiceScope::new(pack.take_chain_services_builder());
+        PNode { shared, chain: Some(chain), _network: n }
+    }
+    pub fn process(&self, block: &BlockView) -> Result<bool, String> {
+        self.chain.as_ref().unwrap().chain_controller().blocking_process_block(Arc::new(block.clone())).map_err(|e| e.to_string())
+    }
+    pub fn tip_hash(&self) -> Byte32 {
+        self.shared.snapshot().tip_hash()
+    }
+    pub fn stop(mut self) {
+        self.chain.take();
+    }
+}
+
+#[derive(Clone, Debug)]
+struct Cfg {
+    epoch_len: u64,
+    w_close: u64,
+    w_far: u64,
+    interval_ms: u64,
+    expiry_hours: u64,
+    max_ancestors: u64,
+}
+
+/// what the pool held at some moment (from the verif dump)
+#[derive(Clone)]
+struct PEnt {
+    tid: usize,
+    status: u8,
+    spent: Vec<u64>,
+    deps: Vec<u64>,
+    hdeps: Vec<usize>,
+    desc: Vec<usize>,
+    timestamp: u64,
+}
+
+struct World {
+    dir: PathBuf,
+    cfg: Cfg,
+    consensus: Consensus,
+    main: PNode,
+    builder: ChainBuilder,
+    txs: Vec<TransactionView>,
+    tid_by_short: HashMap<ProposalShortId, usize>,
+    tid_by_hash: HashMap<Byte32, usize>,
+    gcells: Vec<(OutPoint, u64)>,
+    block_ids: HashMap<Byte32, usize>,
+    salt: u64,
+    /// txs that were committed on a detached block (and not on the attached ones) at some reorg
+    ever_detached: HashSet<usize>,
+    /// txs dropped by remove_expired
+    expired_removed: HashSet<usize>,
+    clock: u64,
+    guard: ckb_systemtime::FaketimeGuard,
+}
+
+fn cap_of(tx: &TransactionView, i: usize) -> u64 {
+    let c: Capacity = tx.outputs().get(i).expect("output index").capacity().unpack();
+    c.as_u64()
+}
+
+fn list<T: ToString + Ord>(mut v: Vec<T>) -> String {
+    v.sort();
+    if v.is_empty() { "-".into() } else { v.iter().map(|x| x.to_string()).collect::<Vec<_>>().join(",") }
+}
+
+impl World {
+    fn new(base: &Path, case: u64, cfg: Cfg) -> World {
+        let dir = base.join(format!("case-{case}"));
+        let _ = std::fs::remove_dir_all(&dir);
+        std::fs::create_dir_all(&dir).unwrap();
+        let ncfg = NodeCfg { epoch_len: cfg.epoch_len, window: (cfg.w_close, cfg.w_far), genesis_cells: 24, maturity_epochs: 0, with_pool: false, tx_pool: None };
+        let consensus = make_consensus(&ncfg);
+        let guard = ckb_systemtime::faketime();
+        let clock = std::time::SystemTime::now().duration_since(std::time::UNIX_EPOCH).unwrap().as_millis() as u64;
+        guard.set_faketime(clock);
+        let mut tp = TxPoolConfig::default();
+        tp.max_ancestors_count = cfg.max_ancestors as usize;
+        tp.expiry_hours = cfg.expiry_hours as u8;
+        let main = PNode::start(&dir.join("main"), consensus.clone(), tp, cfg.interval_ms);
+        let builder = ChainBuilder::new(consensus.clone(), &dir.join("builder"));
+        let gcells = genesis_cells(&consensus);
+        let mut block_ids = HashMap::new();
+        block_ids.insert(consensus.genesis_hash(), 0);
+        World { dir, cfg, consensus, main, builder, txs: vec![], tid_by_short: HashMap::new(), tid_by_hash: HashMap::new(), gcells, block_ids, salt: 1000, ever_detached: HashSet::new(), expired_removed: HashSet::new(), clock, guard }
+    }
+
+    fn finish(self) {
+        let World { dir, main, builder, guard, .. } = self;
+        drop(builder);
+        main.stop();
+        drop(guard);
+        let _ = std::fs::remove_dir_all(dir);
+    }
+
+    fn tpc(&self) -> &ckb_tx_pool::TxPoolController {
+        self.main.shared.tx_pool_controller()
+    }
+
+    fn sync_pool(&self, out: &mut Out) {
+        let t = Instant::now();
+        loop {
+            let tip = self.main.tip_hash();
+            if let Ok(info) = self.tpc().get_tx_pool_info() {
+                if info.tip_hash == tip {
+                    break;
+                }
+            }
+            if t.elapsed() > Duration::from_secs(20) {
+                out.count("sync-timeout");
+                break;
+            }
+            std::thread::sleep(Duration::from_millis(2));
+        }
+    }
+
+    fn out_point(&self, t: usize, i: usize) -> (OutPoint, u64) {
+        if t == 0 {
+            self.gcells[i].clone()
+        } else {
+            let tx = &self.txs[t - 1];
+            (OutPoint::new(tx.hash(), i as u32), cap_of(tx, i))
+        }
+    }
+
+    fn op_code(&self, op: &OutPoint) -> u64 {
+        let idx: u32 = op.index().unpack();
+        match self.tid_by_hash.get(&op.tx_hash()) {
+            Some(t) => *t as u64 * 16 + idx as u64,
+            None => match self.gcells.iter().position(|(g, _)| g == op) {
+                Some(k) => k as u64,
+                None => 1_000_000, // the always-success code cell (cell dep of every tx), never spent
+            },
+        }
+    }
+
+    fn block_id(&mut self, h: &Byte32) -> usize {
+        let n = self.block_ids.len();
+        *self.block_ids.entry(h.clone()).or_insert(n)
+    }
+
+    fn main_chain(&self) -> Vec<Byte32> {
+        let snap = self.main.shared.snapshot();
+        (0..=snap.tip_number()).map(|n| snap.get_block_hash(n).expect("main hash")).collect()
+    }
+
+    fn dump(&mut self) -> Vec<PEnt> {
+        let r = self
+            .tpc()
+            .verif_read(|pool| {
+                let pm = pool.verif_pool_map();
+                let d = pm.verif_dump();
+                let desc: Vec<HashSet<ProposalShortId>> = d.entries.iter().map(|e| pm.verif_calc_descendants(&e.id)).collect();
+                (d, desc)
+            })
+            .expect("verif_read");
+        let (d, desc) = r;
+        let hd: HashMap<ProposalShortId, Vec<Byte32>> = d.header_deps.iter().cloned().collect();
+        let mut v = vec![];
+        for (e, ds) in d.entries.iter().zip(desc.iter()) {
+            let tid = *self.tid_by_short.get(&e.id).expect("known tx");
+            let tx = e.entry.transaction().clone();
+            let hdeps: Vec<usize> = hd.get(&e.id).cloned().unwrap_or_default().iter().map(|h| self.block_id(h)).collect();
+            v.push(PEnt {
+                tid,
+                status: match e.status { Status::Pending => 0, Status::Gap => 1, Status::Proposed => 2 },
+                spent: tx.input_pts_iter().map(|op| self.op_code(&op)).collect(),
+                deps: tx.cell_deps_iter().map(|d| self.op_code(&d.out_point())).collect(),
+                hdeps,
+                desc: ds.iter().map(|x| *self.tid_by_short.get(x).expect("known")).collect(),
+                timestamp: e.entry.timestamp,
+            });
+        }
+        v
+    }
+}
+
+/// one chain change: pool before, chain before, then the block(s); evaluates oracle + emits model lines
+fn after_chain_change(w: &mut World, out: &mut Out, pre: &[PEnt], old_chain: &[Byte32], old_proposed: &HashSet<ProposalShortId>) {
+    w.sync_pool(out);
+    let new_chain = w.main_chain();
+    let post = w.dump();
+    let snap = w.main.shared.snapshot();
+    let common = old_chain.iter().zip(new_chain.iter()).take_while(|(a, b)| a == b).count();
+    let detached: Vec<Byte32> = old_chain[common..].to_vec();
+    let attached: Vec<Byte32> = new_chain[common..].to_vec();
+    if !detached.is_empty() {
+        out.count(&format!("reorg-depth-{}", detached.len().min(9)));
+    }
+    let block = |h: &Byte32| -> BlockView { snap.get_block(h).expect("block in store") };
+    let att_txs: Vec<TransactionView> = attached.iter().flat_map(|h| block(h).transactions().into_iter().skip(1)).collect();
+    let det_txs: Vec<TransactionView> = detached.iter().flat_map(|h| block(h).transactions().into_iter().skip(1)).collect();
+    let att_set: HashSet<Byte32> = att_txs.iter().map(|t| t.hash()).collect();
+    let new_proposed: HashSet<ProposalShortId> = snap.proposals().set().clone();
+    let new_gap: HashSet<ProposalShortId> = snap.proposals().gap().clone();
+    let det_props: Vec<usize> = old_proposed.difference(&new_proposed).filter_map(|id| w.tid_by_short.get(id).cloned()).collect();
+    // ---- model lines
+    out.op("rpool", "ok");
+    for e in pre {
+        out.op(&format!("rent {} {} {} {} {} {}", e.tid, e.status, list(e.spent.clone()), list(e.deps.clone()), list(e.hdeps.clone()), list(e.desc.clone())), "ok");
+    }
+    for t in &att_txs {
+        let tid = match w.tid_by_hash.get(&t.hash()) { Some(t) => *t, None => 0 };
+        out.op(&format!("ratt {} {}", tid, list(t.input_pts_iter().map(|op| w.op_code(&op)).collect())), "ok");
+    }
+    let det_hdr: Vec<usize> = detached.iter().map(|h| w.block_id(h)).collect();
+    let known = |s: &HashSet<ProposalShortId>| -> Vec<usize> { s.iter().filter_map(|id| w.tid_by_short.get(id).cloned()).collect() };
+    out.op(&format!("rargs {} {} {} {}", list(det_hdr), list(det_props), list(known(&new_gap)), list(known(&new_proposed))), "ok");
+    let pre_ids: HashSet<usize> = pre.iter().map(|e| e.tid).collect();
+    let expiry_ms = w.cfg.expiry_hours * 3600 * 1000;
+    let now = w.clock;
+    let expired: HashSet<usize> = pre.iter().filter(|e| expiry_ms + e.timestamp < now).map(|e| e.tid).collect();
+    let mut surv: Vec<(usize, u8)> = post.iter().filter(|e| pre_ids.contains(&e.tid)).map(|e| (e.tid, e.status)).collect();
+    surv.sort();
+    let expired_note = if expired.is_empty() { String::new() } else { format!(" expired={}", list(expired.iter().cloned().collect())) };
+    // expired entries are dropped by remove_expired after the modelled part: tell the model which
+    out.op(&format!("rafter {}", list(expired.iter().cloned().collect())), &format!("{}", if surv.is_empty() { "-".to_string() } else { surv.iter().map(|(t, s)| format!("{t}:{s}")).collect::<Vec<_>>().join(",") }));
+    for t in det_txs.iter().filter(|t| !att_set.contains(&t.hash())) {
+        if let Some(tid) = w.tid_by_hash.get(&t.hash()) {
+            w.ever_detached.insert(*tid);
+        }
+    }
+    if !expired.is_empty() {
+        out.count("update-with-expired-entries");
+        let still: HashSet<usize> = post.iter().map(|e| e.tid).collect();
+        for t in &expired {
+            if !still.contains(t) {
+                w.expired_removed.insert(*t);
+            }
+        }
+    }
+    // ---- oracle on the implementation alone
+    let suffix = "";
+    let pooled: HashMap<usize, &PEnt> = post.iter().map(|e| (e.tid, e)).collect();
+    let mut spent_by: HashMap<u64, usize> = HashMap::new();
+    for e in &post {
+        let tx = &w.txs[e.tid - 1];
+        if snap.get_transaction_info(&tx.hash()).is_some() {
+            out.oracle_fail(&format!("committed-in-pool{suffix}"), &format!("tx{} is committed on the new main chain{}", e.tid, expired_note));
+        }
+        for op in tx.input_pts_iter() {
+            let code = w.op_code(&op);
+            if let Some(other) = spent_by.insert(code, e.tid) {
+                out.oracle_fail(&format!("double-spend-in-pool{suffix}"), &format!("tx{} and tx{} spend {}", other, e.tid, code));
+            }
+            let src = w.tid_by_hash.get(&op.tx_hash()).cloned();
+            let in_pool = src.map_or(false, |t| pooled.contains_key(&t));
+            if !in_pool && !snap.have_cell(&op) {
+                // the producing tx was committed on an abandoned branch and could not be re-admitted
+                let orphaned = src.map_or(false, |t| w.ever_detached.contains(&t) && snap.get_transaction_info(&w.txs[t - 1].hash()).is_none());
+                let by_expiry = src.map_or(false, |t| w.expired_removed.contains(&t));
+                let cls = if by_expiry { "input-of-expired-parent" } else if orphaned { "input-of-detached-parent-not-readmitted" } else { "dead-or-unknown-input" };
+                out.oracle_fail(&format!("{cls}{suffix}"), &format!("tx{} input {} (tx{:?}) is neither live on the new chain nor an output of a pooled tx{}", e.tid, code, src, expired_note));
+            }
+        }
+        for h in tx.header_deps_iter() {
+            if !snap.is_main_chain(&h) {
+                out.oracle_fail(&format!("detached-header-dep{suffix}"), &format!("tx{} header dep not on the main chain", e.tid));
+            }
+        }
+        let id = tx.proposal_short_id();
+        let want = if new_proposed.contains(&id) { 2 } else if new_gap.contains(&id) { 1 } else { 0 };
+        if e.status != want {
+            let cls = if e.status == 1 && want == 0 { "stage-gap-outside-window" } else { "stage-mismatch" };
+            out.oracle_fail(&format!("{cls}{suffix}"), &format!("tx{} status {} but window says {} (0 pending 1 gap 2 proposed){}", e.tid, e.status, want, expired_note));
+        }
+    }
+    // lost txs: committed only on the abandoned branch, still admissible -> must be back
+    let mut have: HashSet<usize> = post.iter().map(|e| e.tid).collect();
+    let mut pool_spent: HashSet<u64> = spent_by.keys().cloned().collect();
+    for t in det_txs.iter().filter(|t| !att_set.contains(&t.hash())) {
+        let tid = match w.tid_by_hash.get(&t.hash()) { Some(t) => *t, None => continue };
+        out.count("detached-only-tx");
+        if have.contains(&tid) {
+            out.count("detached-only-tx-back");
+            continue;
+        }
+        let resolvable = t.input_pts_iter().all(|op| {
+            let src = w.tid_by_hash.get(&op.tx_hash()).cloned();
+            snap.have_cell(&op) || src.map_or(false, |s| have.contains(&s))
+        });
+        let conflict = t.input_pts_iter().any(|op| pool_spent.contains(&w.op_code(&op)));
+        let hdr_ok = t.header_deps_iter().all(|h| snap.is_main_chain(&h));
+        if resolvable && !conflict && hdr_ok {
+            out.oracle_fail(&format!("lost-tx{suffix}"), &format!("tx{tid} was committed only on the abandoned branch, is resolvable on the new chain + pool, but is not pooled"));
+        } else {
+            out.count("detached-only-tx-inadmissible");
+        }
+        let _ = (&mut have, &mut pool_spent);
+    }
+    out.count("chain-change");
+    if !post.is_empty() {
+        out.count("chain-change-with-pool");
+    }
+}
+
+fn nums(ts: &[&str]) -> Vec<u64> {
+    ts.iter().map(|t| t.parse::<u64>().unwrap_or_else(|_| panic!("bad number {t}"))).collect()
+}
+
+fn exec(w: &mut Option<World>, out: &mut Out, base: &Path, line: &str) {
+    let ts: Vec<&str> = line.split(' ').collect();
+    match ts[0] {
+        "cfg" => {
+            let n = nums(&ts[1..]);
+            assert!(n.len() == 6, "cfg arity");
+            if let Some(old) = w.take() {
+                old.finish();
+            }
+            let cfg = Cfg { epoch_len: n[0], w_close: n[1], w_far: n[2], interval_ms: n[3], expiry_hours: n[4], max_ancestors: n[5] };
+            *w = Some(World::new(base, out.case, cfg));
+            out.op(line, "ok");
+        }
+        "rpool" | "rent" | "ratt" | "rargs" | "rafter" => {}
+        _ => {
+            let w = w.as_mut().expect("cfg first");
+            match ts[0] {
+                "submit" => {
+                    let tid: usize = ts[1].parse().unwrap();
+                    assert_eq!(tid, w.txs.len() + 1, "tids are consecutive");
+                    let inputs: Vec<(OutPoint, u64)> = ts[2]
+                        .split(',')
+                        .map(|p| {
+                            let (a, b) = p.split_once('.').expect("t.i");
+                            let (t, i): (usize, usize) = (a.parse().unwrap(), b.parse().unwrap());
+                            assert!(t <= w.txs.len());
+                            w.out_point(t, i)
+                        })
+                        .collect();
+                    let n_out: usize = ts[3].parse().unwrap();
+                    let fee: u64 = ts[4].parse().unwrap();
+                    let mut tx = spend_tx(&inputs, n_out, fee, tid as u64);
+                    if ts[5] != "-" {
+                        let depth: u64 = ts[5].parse().unwrap();
+                        let snap = w.main.shared.snapshot();
+                        let n = snap.tip_number().saturating_sub(depth);
+                        let h = snap.get_block_hash(n).expect("hash");
+                        tx = tx.as_advanced_builder().header_dep(h).build();
+                        out.count("submit-with-header-dep");
+                    }
+                    w.tid_by_short.insert(tx.proposal_short_id(), tid);
+                    w.tid_by_hash.insert(tx.hash(), tid);
+                    w.txs.push(tx.clone());
+                    match w.tpc().submit_local_tx(tx) {
+                        Ok(Ok(())) => out.count("submit-accepted"),
+                        Ok(Err(_)) => out.count("submit-rejected"),
+                        Err(_) => out.count("submit-error"),
+                    }
+                    out.op(line, "ok");
+                }
+                "time" => {
+                    w.clock += ts[1].parse::<u64>().unwrap();
+                    w.guard.set_faketime(w.clock);
+                    out.op(line, "ok");
+                }
+                "mine" => {
+                    if w.cfg.interval_ms > 0 {
+                        std::thread::sleep(Duration::from_millis(w.cfg.interval_ms + 3));
+                    } else {
+                        std::thread::sleep(Duration::from_millis(2));
+                    }
+                    let pre = w.dump();
+                    let old_chain = w.main_chain();
+                    let old_proposed = w.main.shared.snapshot().proposals().set().clone();
+                    if let Ok(Ok(t)) = w.tpc().get_block_template(None, None, None) {
+                        let b: packed::Block = t.into();
+                        let b = b.into_view();
+                        if b.parent_hash() == w.main.tip_hash() {
+                            let r = w.main.process(&b);
+                            if r == Ok(true) {
+                                w.builder.blocks.entry(b.hash()).or_insert_with(|| b.clone());
+                                w.block_id(&b.hash());
+                                out.count("mined");
+                                if b.transactions().len() > 1 {
+                                    out.count("mined-with-commits");
+                                }
+                                after_chain_change(w, out, &pre, &old_chain, &old_proposed);
+                            } else {
+                                out.count("own-template-rejected");
+                            }
+                        }
+                    }
+                    out.op(line, "ok");
+                }
+                "fork" => {
+                    let n = nums(&ts[1..]);
+                    do_fork(w, out, n[0], n[1], n[2] as usize, n[3] as usize);
+                    out.op(line, "ok");
+                }
+                other => panic!("bad op {other}"),
+            }
+        }
+    }
+}
+
+fn do_fork(w: &mut World, out: &mut Out, back: u64, extra: u64, nprop: usize, ncommit: usize) {
+    let snap = w.main.shared.snapshot();
+    let tipn = snap.tip_number();
+    let back = back.min(tipn);
+    let fork_point = snap.get_block_hash(tipn - back).expect("fork point");
+    drop(snap);
+    let len = back + extra.max(1);
+    // proposals: the most recent txs first (pool txs and rejected conflicting ones alike)
+    let proposals: Vec<ProposalShortId> = w.txs.iter().rev().take(nprop).map(|t| t.proposal_short_id()).collect();
+    let proposed: HashSet<ProposalShortId> = proposals.iter().cloned().collect();
+    let mut commits: Vec<TransactionView> = vec![];
+    {
+        let store = w.builder.replay_store(&fork_point);
+        let mut made: HashSet<Byte32> = HashSet::new();
+        let mut used: HashSet<OutPoint> = HashSet::new();
+        for tx in w.txs.iter() {
+            if commits.len() >= ncommit {
+                break;
+            }
+            if !proposed.contains(&tx.proposal_short_id()) || store.get_transaction_info(&tx.hash()).is_some() {
+                continue;
+            }
+            let hdr_ok = tx.header_deps_iter().all(|h| store.is_main_chain(&h));
+            let ok = hdr_ok && tx.input_pts_iter().all(|op| !used.contains(&op) && (made.contains(&op.tx_hash()) || store.have_cell(&op)));
+            if ok {
+                for op in tx.input_pts_iter() {
+                    used.insert(op);
+                }
+                made.insert(tx.hash());
+                commits.push(tx.clone());
+            }
+        }
+    }
+    let mut parent = fork_point;
+    let mut ci = 0;
+    for j in 1..=len {
+        w.salt += 1;
+        let mut spec = BlockSpec { salt: w.salt, ..Default::default() };
+        if j == 1 {
+            spec.proposals = proposals.clone();
+        }
+        if j >= 1 + w.cfg.w_close && j <= 1 + w.cfg.w_far {
+            while ci < commits.len() && spec.txs.len() < 3 {
+                spec.txs.push(commits[ci].clone());
+                ci += 1;
+            }
+        }
+        let b = w.builder.build(&parent, &spec);
+        w.block_id(&b.hash());
+        let pre = w.dump();
+        let old_chain = w.main_chain();
+        let old_proposed = w.main.shared.snapshot().proposals().set().clone();
+        let r = w.main.process(&b);
+        if r.is_err() {
+            out.count("fork-block-rejected");
+            break;
+        }
+        if w.main.tip_hash() == b.hash() {
+            if !spec.txs.is_empty() {
+                out.count("fork-commit-on-new-main");
+            }
+            after_chain_change(w, out, &pre, &old_chain, &old_proposed);
+        }
+        parent = b.hash();
+    }
+    if w.main.tip_hash() == parent {
+        out.count("fork-reorg");
+    } else {
+        out.count("fork-no-reorg");
+    }
+}
+
+struct Gen {
+    free: Vec<(usize, usize, u64)>,
+    spent: Vec<(usize, usize, u64)>,
+    next_tid: usize,
+}
+
+const CKB: u64 = 100_000_000;
+
+fn gen_submit(g: &mut Gen, rng: &mut Rng) -> Option<String> {
+    if g.free.is_empty() {
+        return None;
+    }
+    let mode = rng.below(100);
+    let mut picks: Vec<(usize, usize, u64)> = vec![];
+    let take = |g: &mut Gen, idx: usize| -> (usize, usize, u64) {
+        let x = g.free.remove(idx);
+        g.spent.push(x);
+        x
+    };
+    if mode < 45 {
+        let idx = g.free.len() - 1;
+        picks.push(take(g, idx));
+    } else if mode < 60 {
+        let idx = rng.below(g.free.len() as u64) as usize;
+        picks.push(take(g, idx));
+        if !g.free.is_empty() {
+            let idx = g.free.len() - 1 - rng.below((g.free.len() as u64).min(4)) as usize;
+            picks.push(take(g, idx));
+        }
+    } else if mode < 85 {
+        let cands: Vec<usize> = (0..g.free.len()).filter(|i| g.free[*i].0 == 0).collect();
+        let idx = if cands.is_empty() { rng.below(g.free.len() as u64) as usize } else { *rng.pick(&cands) };
+        picks.push(take(g, idx));
+    } else {
+        if g.spent.is_empty() {
+            return None;
+        }
+        picks.push(*rng.pick(&g.spent));
+    }
+    let total: u64 = picks.iter().map(|p| p.2).sum();
+    let fee = *rng.pick(&[500u64, 1000, 2000, 5000, 100_000]);
+    let mut n_out = 1 + rng.below(2) as usize;
+    while n_out > 1 && total < n_out as u64 * 150 * CKB + fee {
+        n_out -= 1;
+    }
+    if total < 150 * CKB + fee {
+        return None;
+    }
+    let tid = g.next_tid;
+    g.next_tid += 1;
+    let each = (total - fee) / n_out as u64;
+    for i in 0..n_out {
+        g.free.push((tid, i, each));
+    }
+    let ins = picks.iter().map(|p| format!("{}.{}", p.0, p.1)).collect::<Vec<_>>().join(",");
+    let hdep = if rng.chance(1, 6) { rng.below(4).to_string() } else { "-".to_string() };
+    Some(format!("submit {} {} {} {} {}", tid, ins, n_out, fee, hdep))
+}
+
+fn gen_case(out: &mut Out, base: &Path, rng: &mut Rng, steps: u64) {
+    let w_close = rng.range(1, 2);
+    let w_far = w_close + rng.range(1, 3);
+    let expiry_case = rng.chance(1, 3);
+    let cfgl = format!("cfg {} {} {} {} {} {}", rng.range(4, 9), w_close, w_far, *rng.pick(&[0u64, 0, 5]), if expiry_case { 1 } else { 12 }, *rng.pick(&[25u64, 25, 6]));
+    out.begin_case(&format!("window={w_close},{w_far} expiry={expiry_case}"));
+    let mut w: Option<World> = None;
+    exec(&mut w, out, base, &cfgl);
+    let mut g = Gen { free: (0..24).map(|i| (0usize, i, 50_000 * CKB)).collect(), spent: vec![], next_tid: 1 };
+    let mut fp = String::new();
+    for _ in 0..steps {
+        let r = rng.below(100);
+        let line = if r < 45 {
+            match gen_submit(&mut g, rng) {
+                Some(l) => l,
+                None => continue,
+            }
+        } else if r < 75 {
+            "mine".to_string()
+        } else if r < 92 {
+            let back = rng.range(1, w_far + 2);
+            format!("fork {} {} {} {}", back, rng.range(1, 2), rng.below(10), rng.below(5))
+        } else if expiry_case {
+            format!("time {}", rng.range(10, 35) * 60 * 1000)
+        } else {
+            format!("time {}", rng.range(1, 50))
+        };
+        fp.push(line.as_bytes()[0] as char);
+        exec(&mut w, out, base, &line);
+    }
+    exec(&mut w, out, base, "mine");
+    out.nontrivial(fp);
+    if let Some(world) = w.take() {
+        world.finish();
+    }
+}
+
+pub fn run(opts: &Opts) {
+    let base = scratch_dir(&opts.out, "c12");
+    let mut out = Out::new(&opts.out);
+    let mut rng = Rng::new(opts.seed ^ 0xC12);
+    if let Some(p) = &opts.replay {
+        let ops = read_replay_ops(p);
+        let mut w: Option<World> = None;
+        for l in ops {
+            if l.starts_with("case ") {
+                out.begin_case(l.splitn(3, ' ').nth(2).unwrap_or("replay"));
+                continue;
+            }
+            if out.case == 0 {
+                out.begin_case("replay");
+            }
+            exec(&mut w, &mut out, &base, &l);
+        }
+        if let Some(world) = w.take() {
+            world.finish();
+        }
+    } else {
+        let cases = if opts.thorough() { 150 } else { 16 } * opts.scale;
+        for _ in 0..cases {
+            let steps = rng.range(40, 90);
+            gen_case(&mut out, &base, &mut rng, steps);
+        }
+    }
+    let _ = std::fs::remove_dir_all(&base);
+    out.finish("a case is non-trivial by its op-kind sequence (submit/mine/fork/time)");
+    std::process::exit(0);
 }
